@@ -182,7 +182,7 @@ def run(tier, seed):
                 "permutations, bare vs `= true`, `= false` vs omitted, entrait_export vs `export`, unimock cargo feature vs `unimock`; "
                 "outputs inside an equivalence class must be token-identical; plus the full option x target acceptance table. "
                 "non-trivial = group with a non-empty option set")
-    n = 500 if tier == "quick" else 6000
+    n = 500 if tier == "quick" else 3000
     rng = core.rng_for(PROP, seed)
     groups = []
     for gi in range(n):
